@@ -31,11 +31,16 @@ def pick(cases, thorough, seed):
     return out
 
 
+CRASHED = {}      # case -> description, filled by run_programs (a crash is reported by the caller as a violation)
+
+
 def run_programs(chk, cases, progs_by_case, name_prefix, prelude, deps, on_prelude=""):
     """builds feature-on and feature-off crates, runs them, returns the enriched event list and expansion records"""
     events = []
     dropped_all = {}
     recs_all = {}
+    crashed_all = CRASHED
+    crashed_all.clear()
     for feature in (False, True):
         name = f"{name_prefix}{'on' if feature else 'off'}"
         mine = [c for c in cases if c["feature"] == feature]
@@ -51,19 +56,38 @@ def run_programs(chk, cases, progs_by_case, name_prefix, prelude, deps, on_prelu
             desc[c["case"]] = d
 
         def main_fn(live, crate=crate):
-            return "\n".join(f"    cases::{crate.cases[cid]}::run();" for cid in live)
+            lines = ['    let skip = ::std::env::var("VT_SKIP").unwrap_or_default();',
+                     '    let skip: Vec<&str> = skip.split(\',\').collect();']
+            lines += [f'    if !skip.contains(&"{cid}") {{ cases::{crate.cases[cid]}::run(); }}' for cid in live]
+            return "\n".join(lines)
 
         dump = os.path.join(chk.work, name + "-dump")
         dropped, first_dump, iters = crate.build(mode="build", dump=dump, main_fn=main_fn)
         dropped_all.update(dropped)
         by_case, _ = vf.records_by_case(chk, first_dump, name=name + "-obs")
         recs_all.update(by_case)
-        r = crate.run(timeout=900)
-        if r.returncode != 0:
-            raise vf.ToolError(f"{name}: client binary failed (exit {r.returncode}): " + (r.stderr or r.stdout)[-1500:])
-        for line in r.stdout.splitlines():
-            if not line.startswith("{"):
-                continue
+        # A crash of the client (stack overflow, abort) is an observation about the case that was running, not a tool
+        # failure: that case is reported, skipped, and the binary is run again for the others.
+        skip = []
+        lines_out = []
+        for attempt in range(600):
+            r = crate.run(timeout=900, env={"VT_SKIP": ",".join(skip)})
+            out_lines = [l for l in r.stdout.splitlines() if l.startswith("{")]
+            if r.returncode == 0:
+                lines_out = out_lines
+                break
+            last = None
+            for l in out_lines:
+                if '"e":"scenario"' in l:
+                    last = json.loads(l)
+            if last is None:
+                raise vf.ToolError(f"{name}: client binary failed before any scenario (exit {r.returncode}): " + (r.stderr or r.stdout)[-1500:])
+            cid = last["case"][1:]
+            crashed_all[cid] = f"client crashed (exit {r.returncode}) in scenario {last['sc']}: " + (r.stderr or "")[-200:].strip()
+            skip.append(cid)
+        else:
+            raise vf.ToolError(f"{name}: client binary keeps crashing")
+        for line in lines_out:
             e = json.loads(line)
             e.pop("n", None)
             if e["e"] == "scenario":
@@ -111,6 +135,8 @@ def main():
         chk.cov["rejected_example"] = {"program": byid[first]["prog"], "diag": [d["message"][:120] for d in dropped[first]][:2]}
     for b in bad:
         b["detail"] = f"scenario={b['sc']} at={b['at']} program={byid[b['case']]['prog']}"
+    for cid, why in CRASHED.items():
+        bad.append({"case": cid, "conjunct": "runs-to-completion", "cls": "", "detail": f"program={byid[cid]['prog']} {why}"})
     for cid in dropped:
         bad.append({"case": cid, "conjunct": "compiles", "cls": "", "detail": f"program={byid[cid]['prog']} diag={[d['message'][:100] for d in dropped[cid]][:2]}"})
 
